@@ -53,7 +53,7 @@ NoWrap == IsState => /\ Scan.noWrap
 MintBound == (cur.kind = "block" /\ prev.kind \in {"genesis", "block"} /\ cur.small) =>
                 LET d == Scan.total - prev.scan.total
                 IN /\ d <= cur.mint
-                   /\ d >= cur.mint - cur.slashed - (cur.prevPool + cur.mint + cur.included * 100)
+                   /\ d >= cur.mint - cur.slashed - (cur.prevPool + cur.mint + cur.fees)
 \* ---- C12 ----
 StakedTally == (IsState /\ cur.small) => Scan.staked = SumStake(Scan.vals, 1)
 DelegatedTally == (IsState /\ cur.small) => Scan.delegated = SumOver({v \in Valset : v.delegate})
